@@ -193,6 +193,12 @@ func mutatesMap(rs *ast.RangeStmt) bool {
 			for _, l := range s.Lhs {
 				if ix, ok := l.(*ast.IndexExpr); ok {
 					if id, ok := ix.X.(*ast.Ident); ok && id.Name == xid.Name {
+						// overwriting the value of the key being visited does not change the key set: still ownable
+						if k, ok := ix.Index.(*ast.Ident); ok {
+							if rk, ok := rs.Key.(*ast.Ident); ok && rk.Name == k.Name {
+								continue
+							}
+						}
 						mut = true
 					}
 				}
